@@ -260,6 +260,40 @@ func (e *c12Env) run(c c12Case) (obs, bad string) {
 					}
 					results = append(results, fmt.Sprint(otp.IsKnownSuite(name), otp.SuiteConfigFromRaws(name) == otp.SuiteConfig{}, len(otp.ListSuites())))
 				}
+			case "returned-slices":
+				// every operation that returns bytes: the result is the caller's - after the caller overwrites
+				// it, the same call must return the same bytes again (no result may alias library memory)
+				fns := []struct {
+					name string
+					f    func() []byte
+				}{
+					{"DecodeSecret", func() []byte { b, _ := otp.DecodeSecret(sec); return b }},
+					{"DecodeSecret(lower, padded)", func() []byte { b, _ := otp.DecodeSecret(" mfrggzdfmztwq2lk\n"); return b }},
+					{"To8ByteBigEndian", func() []byte { return otp.To8ByteBigEndian(0x0102030405060708) }},
+					{"ParseDecimalToBigEndian8", func() []byte { b, _ := otp.ParseDecimalToBigEndian8("72623859790382856"); return b }},
+					{"ParseDecimal64BigEndian", func() []byte { b, _ := otp.ParseDecimal64BigEndian("72623859790382856"); return b }},
+					{"ParseHexTimestamp", func() []byte { b, _ := otp.ParseHexTimestamp("132d0b6"); return b }},
+					{"ParseDecimalChallengeRFC6287", func() []byte { b, _ := otp.ParseDecimalChallengeRFC6287("12345678"); return b }},
+					{"MustHexPadLeft", func() []byte { return otp.MustHexPadLeft("abcdef", 8) }},
+					{"padBytes(short)", func() []byte { return otp.VerifPadBytes([]byte{1, 2, 3}, 8) }},
+				}
+				for round := 0; round < 2; round++ {
+					for _, fn := range fns {
+						first := fn.f()
+						if len(first) == 0 {
+							panic("VERIF-C12: harness: " + fn.name + " returned nothing (vacuous case)")
+						}
+						keep := clone(first)
+						for i := range first {
+							first[i] ^= 0xA5
+						}
+						again := fn.f()
+						if !bytes.Equal(again, keep) {
+							panic(fmt.Sprintf("VERIF-C12: %s returned %x, the caller overwrote that result, and the same call now returns %x", fn.name, keep, again))
+						}
+						results = append(results, fmt.Sprintf("%x", keep))
+					}
+				}
 			case "HexInputToOCRA":
 				hx, err := otp.HexInputToOCRA("0000000000000001", "3132333435363738", "", "abcd", "")
 				if err == nil {
@@ -354,7 +388,7 @@ func c12(r *ev.Run) {
 	if ReplayOnly {
 		return
 	}
-	ops := []string{"GenerateOCRA", "ValidateOCRA", "OCRAInput.Validate", "padBytes", "GenerateHOTP", "ValidateHOTP", "GenerateTOTP", "ValidateTOTP", "GenerateURL+Parse", "ParseURL-variants", "suites", "suites-parsed", "HexInputToOCRA", "rest-requests"}
+	ops := []string{"GenerateOCRA", "ValidateOCRA", "OCRAInput.Validate", "padBytes", "GenerateHOTP", "ValidateHOTP", "GenerateTOTP", "ValidateTOTP", "GenerateURL+Parse", "ParseURL-variants", "suites", "suites-parsed", "HexInputToOCRA", "returned-slices", "rest-requests"}
 	sliceOps := map[string]bool{"GenerateOCRA": true, "ValidateOCRA": true, "OCRAInput.Validate": true, "padBytes": true}
 	var n, trans int64
 	states := map[string]bool{irt.Digest(true): true}
